@@ -4,6 +4,8 @@
    C05's model (MultiDocRun.merge2_model) and for every other instance. *)
 From Coq Require Import List ZArith Bool.
 From YP Require Import Outcome MultiDoc MultiDocProofs.
+(* obligations tying the models' literal tables to the tables regenerated from the source *)
+From YP Require Import GenTables.
 Import ListNotations.
 
 Section C18.
